@@ -28,7 +28,7 @@ RULE = ("skeletons = all statement trees over {marker, break, continue, return, 
 
 
 # iterable form of the for loops of a skeleton, cycled independently of the unparser (idx % 2)
-ITER_FORMS = (False, True, False, "nested", False, "iterator", "getitem", True)
+ITER_FORMS = (False, True, "target", "nested", False, "iterator", "getitem", "target")
 
 
 def _cfgs_for(idx):
@@ -49,6 +49,8 @@ def check_skeleton(part, sk, placement, cfgs, scheds, seed=0, walrus_iter=False)
         part["classes"]["walrus-nested-in-for-iterable"] += 1
     elif walrus_iter == "getitem":
         part["classes"]["for-over-getitem-only-sequence"] += 1
+    elif walrus_iter == "target":
+        part["classes"]["loop-target-read-in-else-and-after"] += 1
     elif walrus_iter:
         part["classes"]["walrus-in-for-iterable"] += 1
     feats = cf.features(sk)
@@ -137,7 +139,7 @@ def _sample_shard(item):
     def body(case):
         placement, sk, rs = case
         sub = new_part()
-        check_skeleton(sub, sk, placement, env.ALL_CFGS, (0, 2, rs), seed=seed & 0xffff, walrus_iter=(True, "iterator", False, "nested", "getitem")[rs % 5])
+        check_skeleton(sub, sk, placement, env.ALL_CFGS, (0, 2, rs), seed=seed & 0xffff, walrus_iter=(True, "iterator", False, "nested", "getitem", "target")[rs % 6])
         for k in ("evaluations",):
             part[k] += sub[k]
         part["nontrivial"] |= sub["nontrivial"]
